@@ -36,6 +36,7 @@ import (
 	"runtime"
 	"runtime/debug"
 	"sort"
+	"strconv"
 	"strings"
 	"syscall"
 	"testing"
@@ -228,9 +229,18 @@ func sfTableSites(f *sfFile, order []sfChunk) {
 		pts[j] = pt{c, j}
 	}
 	sort.SliceStable(pts, func(i, j int) bool { return bytes.Compare(pts[i].c.h[:], pts[j].c.h[:]) < 0 })
-	for k, p := range pts {
-		f.sites[sfKey("idx.prefix", k+1)] = sfSite{off + k*prefixTupleSize, hash.PrefixLen, []string{p.c.name}}
-		f.sites[sfKey("idx.ordinal", k+1)] = sfSite{off + k*prefixTupleSize + hash.PrefixLen, ordinalSize, []string{p.c.name}}
+	for k := range pts {
+		// the owner of tuple k is the chunk its ordinal (as written in the real file) points to: the writer's sort is by
+		// prefix only, so tuples with equal prefixes may stand in either order
+		to := off + k*prefixTupleSize
+		owner := pts[k].c.name
+		if to+prefixTupleSize <= len(f.bytes) {
+			if ord := int(binary.BigEndian.Uint32(f.bytes[to+hash.PrefixLen:])); ord < n {
+				owner = order[ord].name
+			}
+		}
+		f.sites[sfKey("idx.prefix", k+1)] = sfSite{to, hash.PrefixLen, []string{owner}}
+		f.sites[sfKey("idx.ordinal", k+1)] = sfSite{to + hash.PrefixLen, ordinalSize, []string{owner}}
 	}
 	off += n * prefixTupleSize
 	for j, c := range order {
@@ -1316,7 +1326,7 @@ func sfAppendSoft(progress func(map[string]any), soft []common.Result, r common.
 // address-space limit (RLIMIT_AS = idle size + sfASHeadroom) so that a runaway allocation fails at once instead of eating the
 // machine the checks share.
 
-const sfASHeadroom = 768 << 20 // a reader of a few-KB file may map 768 MiB more than the idle process; beyond that it dies at once
+const sfASHeadroom = 1024 << 20 // a reader of a few-KB file may map 1 GiB more than the idle process; beyond that it dies at once
 const sfMaxFatalPerCase = 2
 
 type sfWorker struct {
@@ -1330,6 +1340,7 @@ type sfWorker struct {
 
 var sfW *sfWorker
 var sfWorkersStarted int
+var sfCasesOnWorker int
 
 func sfStartWorker() (*sfWorker, error) {
 	cr, cw, err := os.Pipe()
@@ -1373,6 +1384,8 @@ func (w *sfWorker) stop() {
 	os.Remove(w.errLog)
 }
 
+var sfAllocRe = regexp.MustCompile(`cannot allocate (\d+)-byte block`)
+
 func sfFatalReason(log string) string {
 	for _, l := range strings.Split(log, "\n") {
 		if strings.HasPrefix(l, "fatal error: ") {
@@ -1403,12 +1416,18 @@ func sfSupervise(c map[string]any) common.Result {
 	total := common.Result{"ok": true}
 	var soft []any
 	softSeen := []any{}
-	fatals := 0
+	fatals, smallOOM := 0, 0
 	mutsDone, evals := 0, 0
 	counts := map[string]int{}
 	skipTo := 0
+	sfCasesOnWorker++
+	if sfW != nil && sfCasesOnWorker > 25 {
+		sfW.stop() // a fresh address space now and then
+		sfW = nil
+	}
 	for {
 		if sfW == nil {
+			sfCasesOnWorker = 0
 			w, err := sfStartWorker()
 			if err != nil {
 				return common.Result{"ok": false, "fp": "harness:worker", "detail": err.Error(), "inconclusive": true}
@@ -1495,6 +1514,18 @@ func sfSupervise(c map[string]any) common.Result {
 		}
 		if lastMut == skipTo {
 			return common.Result{"ok": false, "fp": "harness:worker-died-early", "detail": log, "inconclusive": true}
+		}
+		if m := sfAllocRe.FindStringSubmatch(log); m != nil {
+			if n, _ := strconv.ParseUint(m[1], 10, 64); n < 64<<20 {
+				// an ordinary allocation failed: the worker's limited address space was used up by what it did before,
+				// not by this mutation. Same mutation again in a fresh worker; give up (inconclusive) if that keeps happening.
+				smallOOM++
+				if smallOOM > 3 {
+					return common.Result{"ok": false, "fp": "harness:worker-address-space", "detail": log[:min(len(log), 800)], "inconclusive": true}
+				}
+				skipTo = lastMut - 1
+				continue
+			}
 		}
 		fatals++
 		counts["fatal"]++
